@@ -156,57 +156,60 @@ theorem maniaNthLoop_spec (sk : Skills S) (objs : List ManiaObj) (k : Nat) (g : 
       rw [e]
       exact hc
 
+/-- `nth k` (as fixed): value `i + k + 1` when more than `k` values remain, otherwise `None` and the
+exhausted state. -/
 theorem maniaNth_spec (sk : Skills S) (objs : List ManiaObj) (g : ManiaGrad S) (i k : Nat)
     (hc : ManiaCanon sk objs g i) :
-    (i < objs.length →
-      let j := i + min k (objs.length - i - 1) + 1
-      (maniaNth sk objs g k).1 = .some (maniaValue sk objs j) ∧ ManiaCanon sk objs (maniaNth sk objs g k).2 j) ∧
-    (i = objs.length → (maniaNth sk objs g k).1 = .none ∧ ManiaCanon sk objs (maniaNth sk objs g k).2 i) := by
+    (i + k < objs.length →
+      (maniaNth sk objs g k).1 = .some (maniaValue sk objs (i + k + 1)) ∧
+        ManiaCanon sk objs (maniaNth sk objs g k).2 (i + k + 1)) ∧
+    (objs.length ≤ i + k → (maniaNth sk objs g k).1 = .none ∧
+        ManiaCanon sk objs (maniaNth sk objs g k).2 objs.length) := by
+  have hle := hc.le
   have hlen := maniaLen_spec sk objs g i hc
   have hidx := hc.idx
-  have hpre : ∃ g2, ManiaCanon sk objs g2 (i + min k (objs.length - i - 1)) ∧
+  have hpre : ∃ g2, ManiaCanon sk objs g2 (i + min k (objs.length - i)) ∧
       maniaNth sk objs g k = maniaNext sk objs g2 := by
     unfold maniaNth
     simp only [hlen]
-    by_cases h0 : g.idx = 0 ∧ min k (objs.length - i - 1) > 0
+    by_cases h0 : g.idx = 0 ∧ min k (objs.length - i) > 0
     · have hi0 : i = 0 := by omega
       subst hi0
       have hn : 0 < objs.length := by omega
       rw [if_pos h0]
       have hc1 : ManiaCanon sk objs { g with idx := g.idx + 1 } 1 :=
         ⟨by simp [hidx], by simpa using hc.acc, by simpa using hc.skills, hn⟩
-      have h1 := maniaNthLoop_spec sk objs (min k (objs.length - 0 - 1) - 1) _ 1 hc1 (Nat.le_refl _)
-      have e : 1 + min (min k (objs.length - 0 - 1) - 1) (objs.length - 1) = 0 + min k (objs.length - 0 - 1) := by omega
+      have h1 := maniaNthLoop_spec sk objs (min k (objs.length - 0) - 1) _ 1 hc1 (Nat.le_refl _)
+      have e : 1 + min (min k (objs.length - 0) - 1) (objs.length - 1) = 0 + min k (objs.length - 0) := by omega
       rw [e] at h1
       refine ⟨_, h1, ?_⟩
       simp [h0.1]
     · rw [if_neg h0]
       by_cases hi : 1 ≤ i
-      · have h1 := maniaNthLoop_spec sk objs (min k (objs.length - i - 1)) g i hc hi
-        have e : i + min (min k (objs.length - i - 1)) (objs.length - i) = i + min k (objs.length - i - 1) := by omega
+      · have h1 := maniaNthLoop_spec sk objs (min k (objs.length - i)) g i hc hi
+        have e : i + min (min k (objs.length - i)) (objs.length - i) = i + min k (objs.length - i) := by omega
         rw [e] at h1
         exact ⟨_, h1, by simp [hidx]⟩
       · have hi0 : i = 0 := by omega
         subst hi0
-        have ht : min k (objs.length - 0 - 1) = 0 := by
-          have : ¬ (min k (objs.length - 0 - 1) > 0) := fun h => h0 ⟨hidx, h⟩
+        have ht : min k (objs.length - 0) = 0 := by
+          have : ¬ (min k (objs.length - 0) > 0) := fun h => h0 ⟨hidx, h⟩
           omega
         refine ⟨g, by rw [ht]; exact hc, ?_⟩
         simp only [ht, maniaNthLoop]
   obtain ⟨g2, hc2, heq2⟩ := hpre
   rw [heq2]
   constructor
-  · intro hlt j
-    have hm : i + min k (objs.length - i - 1) < objs.length := by omega
-    exact (maniaNext_spec sk objs g2 _ hc2).1 hm
-  · intro heq
-    have hm : i + min k (objs.length - i - 1) = objs.length := by omega
-    have hn := (maniaNext_spec sk objs g2 _ hc2).2 hm
-    rw [hn]
-    refine ⟨rfl, ?_⟩
-    have e : i + min k (objs.length - i - 1) = i := by omega
+  · intro hlt
+    have e : i + min k (objs.length - i) = i + k := by omega
     rw [e] at hc2
-    exact hc2
+    exact (maniaNext_spec sk objs g2 _ hc2).1 hlt
+  · intro hge
+    have e : i + min k (objs.length - i) = objs.length := by omega
+    rw [e] at hc2
+    have hn := (maniaNext_spec sk objs g2 _ hc2).2 rfl
+    rw [hn]
+    exact ⟨rfl, hc2⟩
 
 end Rosu.Gradual
 
